@@ -933,3 +933,53 @@ _THIRD = {"C01": third_c01, "C02": third_c02, "C04": third_c04, "C05": third_c05
           "C11": third_c11, "C12": third_c12, "C13": third_c13, "C16": third_c16, "C17": third_c17, "C18": third_c18, "C19": third_c19}
 for _pid, _more in _THIRD.items():
     REGISTRY[_pid] = _merged(REGISTRY[_pid], _more)
+
+
+# ---------------------------------------------------------------------------------------------------------------------
+# fourth batch: behaviour-preserving re-phrasings only (the checks must stay silent on all of them)
+def _twins4():
+    return {
+        "C04": [
+            V("twin-finally-order", S, "An.evaluate", "            results.close()\n            # also when the iterator is closed or dropped before it is exhausted, or user code raised.\n            self._reset_cache_()",
+              "            self._reset_cache_()\n            results.close()", kind="twin"),
+            V("twin-index-clear-order", CD, "IndexedCache.clear", "        self.cache.clear()\n        self.seen_set.clear()\n        self.flat_cache.clear()",
+              "        self.flat_cache.clear()\n        self.seen_set.clear()\n        self.cache.clear()", kind="twin"),
+        ],
+        "C09": [
+            V("twin-process-result-outside-override", S, "The.evaluate", "                result = self._evaluate_()\n                return self._process_result_(result)",
+              "                result = self._evaluate_()\n            return self._process_result_(result)", kind="twin"),
+        ],
+        "C10": [
+            V("twin-intersection-by-filter", S, "ForAll._evaluate__", "self.solution_set = [d for d in self.solution_set if tuple(sorted(d.items())) in current_set]",
+              "self.solution_set = list(filter(lambda d: tuple(sorted(d.items())) in current_set, self.solution_set))", kind="twin"),
+        ],
+        "C19": [
+            V("twin-filter-test-reordered", S, "DomainMapping._evaluate__", "                if yield_when_false or not self._is_false_:", "                if not self._is_false_ or yield_when_false:", kind="twin"),
+        ],
+        "C07": [
+            V("twin-memo-by-setdefault", "hashed_data", "HashedIterable.__iter__", "            self.values[v.id_] = v\n            yield v", "            self.values.setdefault(v.id_, v)\n            yield v", kind="twin"),
+        ],
+        "C12": [
+            V("twin-relink-test-negated", "rule", "refinement", "        if prev_parent.left is current_node:\n            prev_parent.left = new_conditions_root\n        else:\n            prev_parent.right = new_conditions_root",
+              "        if prev_parent.left is not current_node:\n            prev_parent.right = new_conditions_root\n        else:\n            prev_parent.left = new_conditions_root", kind="twin"),
+        ],
+        "C02": [
+            V("twin-descriptor-row-merge", S, "QueryObjectDescriptor._evaluate_", "        for v in child_values:\n            v.update(sources)\n", "        for v in child_values:\n            v = {**v, **sources}\n", kind="twin"),
+            V("twin-child-default", S, "BinaryOperator._required_variables_from_child_", "        if not child:\n            child = self.left\n", "        child = child or self.left\n", kind="twin"),
+            V("twin-elseif-row-dict-display", S, "ElseIf._evaluate__", "                            output = copy(left_value)\n                            output.update(right_value)\n",
+              "                            output = {**left_value, **right_value}\n", kind="twin"),
+        ],
+        "C11": [
+            V("twin-argument-binding-dict-display", S, "Variable._bind_child_vars_", "            extended_binding = copy(binding)\n            extended_binding.update(value)\n",
+              "            extended_binding = {**binding, **value}\n", kind="twin"),
+        ],
+        "C05": [
+            V("twin-write-gate-inverted", S, "BinaryOperator.update_cache",
+              "        if not self._caching_enabled_():\n            return\n        cache = self._cache_ if cache is None else cache\n        cache.insert({k: v for k, v in values.items() if k in cache.keys}, output=self._is_false_)",
+              "        if self._caching_enabled_():\n            cache = self._cache_ if cache is None else cache\n            cache.insert({k: v for k, v in values.items() if k in cache.keys}, output=self._is_false_)", kind="twin"),
+        ],
+    }
+
+
+for _pid, _vs in _twins4().items():
+    REGISTRY[_pid] = _merged(REGISTRY[_pid], (lambda vs: (lambda: vs))(_vs))
